@@ -77,3 +77,13 @@ func VerifHarness_C18() {
 	md2, _, err2 := load(rd.New(in[:needed]))
 	pngmeta.VerifSameMeta(md, err, md2, err2)
 }
+
+// VerifHarness_C18_NegControl: deliberately wrong claim (the loader never reads past the
+// needed bytes at all - no read-ahead allowance); must be reported as violated.
+func VerifHarness_C18_NegControl() {
+	head, _ := pngmeta.VerifBuildPNG(0)
+	in := append(append([]byte{}, head...), make([]byte, 5000)...)
+	src := rd.New(in)
+	_, _, _ = pngmeta.Load(src)
+	verifAssert(src.Delivered <= len(head)-7, "negative control: no read-ahead at all (wrong on purpose)")
+}
